@@ -298,10 +298,49 @@ func cbfsSeeds(r *rand.Rand) []Seed {
 	return ss
 }
 
+// cbfsCutShapes (gap closing round 3): the record walk of NewImage is a scan loop like fmap.Read's — no magic
+// (skip 16), io.EOF (stop), other error (fail), record (advance past it).  The COREBOOT area of these images
+// ends k bytes after the start of a last "LARCHIVE" record: inside the magic's 16-byte step, inside the
+// 24-byte header, exactly behind it, inside the name, inside the data; once more with the area ending
+// before the end of the image (the cut is the area's, the bytes go on).
+func cbfsCutShapes(tier string) []Seed {
+	var ss []Seed
+	last := (&cbfsRec{name: "last", typ: 0x50, data: []byte("0123456789abcdef")}).bytes() // 24 + 16 + 16 bytes
+	first := cbfsRec{name: "config", typ: 0x50, data: []byte("CONFIG_X=y\n")}
+	ks := []int{8, 16, 23, 24, 25, 40, 41, 55}
+	if tier == "thorough" {
+		ks = nil
+		for k := 1; k < len(last); k++ {
+			ks = append(ks, k)
+		}
+	}
+	// the complete image, then cut k bytes behind the start of its last record (area size and flash size follow)
+	cutAt := func(recs []cbfsRec, k int) (cut, whole []byte) {
+		whole, _, _ = cbfsImage(recs, 0)
+		n := len(whole) - len(last) + k
+		cut = append([]byte(nil), whole[:n]...)
+		le32(cut, 18, uint32(n))
+		le32(cut, 56+42+4, uint32(n-cbfsFmapLen))
+		return cut, whole
+	}
+	for _, k := range ks {
+		img, whole := cutAt([]cbfsRec{first, {raw: last}}, k)
+		ss = append(ss, Seed{Name: fmt.Sprintf("last-record-cut-%d", k), In: img})
+		// the same area, but the image goes on behind it (the cut is the area's only)
+		ss = append(ss, Seed{Name: fmt.Sprintf("last-record-cut-%d/area-ends-inside-image", k),
+			In: append(append([]byte(nil), img...), whole[len(img):]...)})
+		// nothing but the cut record in the area
+		img, _ = cutAt([]cbfsRec{{raw: last}}, k)
+		ss = append(ss, Seed{Name: fmt.Sprintf("only-record-cut-%d", k), In: img})
+	}
+	return ss
+}
+
 func init() {
 	Register(&EP{
-		Name:  "cbfs.image",
-		Seeds: cbfsSeeds,
+		Name:   "cbfs.image",
+		Seeds:  cbfsSeeds,
+		Shapes: cbfsCutShapes,
 		Run: func(in []byte, _ map[string]string) Res {
 			img, err := cbfs.NewImage(bytes.NewReader(in))
 			if err != nil {
